@@ -143,9 +143,16 @@ def unsplit_path(path):
     out = []
     i = 0
     path = [tuple(x) for x in path]
+    # a run that ended strictly between two instants leaves the clock there: until the next event is dispatched, "now" of
+    # the split runs is that mid time while "now" of the one uninterrupted run is still the instant before it
+    displaced = False
     while i < len(path):
         lab = path[i]
         if lab[0] != 'split':
+            if lab[0] == 'ev':
+                displaced = False
+            elif displaced:
+                return None      # an operation positioned relative to a clock the twin does not have
             out.append(lab)
             i += 1
             continue
@@ -157,7 +164,13 @@ def unsplit_path(path):
         if j >= len(path) or path[j][0] != 'resume' or len(xs) > 1:
             return None
         if xs:
+            if displaced or lab[1] == 'mid':
+                # the operation runs at the mid time; the twin would have to run it from an event of its own at that
+                # time, which the choice list does not contain: no twin here
+                return None
             out.append(('op', xs[0], lab[1]))
+        if lab[1] == 'mid':
+            displaced = True
         i = j + 1
     return out
 
